@@ -231,10 +231,17 @@ def check_connection_panics(fx, rep, crate, cfg):
             continue
         n += 1
         for blk, t in b.iter_terms('call'):
-            if t.get('mac') or b.is_cleanup(blk):
+            if b.is_cleanup(blk):
                 continue
             nm = t['callee'].get('name') or ''
             d = t['callee'].get('def') or ''
+            # a byte range applied to a `str` panics when a bound is not a char boundary - also inside the argument list of a log macro, which is evaluated eagerly
+            if nm in ('index', 'index_mut') and t['args'] and ((mir.op_place(t['args'][0]) or {}).get('ty') or '').replace('mut ', '') in ('&str', "&'_ str") and \
+                    'Range' in ((mir.op_place(t['args'][1]) or {}).get('ty') or t['args'][1].get('ty') or '' if len(t['args']) > 1 else ''):
+                bad.append((b, blk, 'str[byte range]'))
+                continue
+            if t.get('mac'):
+                continue
             if nm in PANICKY or 'panicking::' in d:
                 bad.append((b, blk, nm))
     for b, blk, nm in bad:
